@@ -74,6 +74,11 @@ Fact C14_fact_concat_error_returns :
   = (1, 0, 1, 0)%N.
 Proof. vm_compute. reflexivity. Qed.
 
+(* JoinNumericPlugin without an `enableNormalize` key in its settings normalises (the documented default): the harness
+   configures the key as true / false / absent and expects absent = true *)
+Fact C14_fact_enable_normalize_default : RF.enable_normalize_when_absent = true.
+Proof. vm_compute. reflexivity. Qed.
+
 (* the katakana loop finishes within |p|+1 iterations and every concat_oov_nodes call has begin < end <= |p| *)
 Theorem C14_katakana_terminates :
   forall ml op p, exists q, join_katakana ml op p = Some (Ok q).
